@@ -2,7 +2,8 @@
 from .. import charset, tables
 from ..callgraph import norm
 from ..cfg import Cfg, reach
-from ..common import body_by_name, callee_names, callgraph, switch_atom, last_named_field
+from ..common import body_by_name, callee_names, callgraph, helper_owners, switch_atom, last_named_field
+from ..inline import inlined, same_impl_helpers
 from ..facts import callee, const_int, const_str, op_const, op_local, op_place
 from ..flow import Flow, identity_through
 from .C12 import closure_of_local, only_err_returns
@@ -236,7 +237,8 @@ def arg_rules(rep, prog, cfg):
     if len(aa) != 1:
         rep.fail("C07.anchor", cfg + "/Command::add_argument", M + "Command::add_argument", "public anchor not found")
         return
-    b = aa[0]
+    # the rollback may be a private method of Command: analyse add_argument with such helpers spliced in (A12)
+    b = inlined(prog, aa[0], same_impl_helpers(aa[0]))
     g = Cfg(b)
     fl = Flow(b)
     render = [(bb, t) for bb, t in b.calls() if M + "Argument::render" in callee_names(t)]
@@ -332,10 +334,21 @@ def owners_rule(rep, prog, cfg):
     if cfg == "K3":
         allowed.discard("mpd_protocol::connection::AsyncConnection::send")
     seen = set()
+    touching = set()
+    for b in prog.bodies.values():
+        if b.crate == "mpd_protocol" and not b.raw.get("derived"):
+            for bb, i, s in b.stmts():
+                if s["k"] == "assign" and ((s["rv"]["k"] == "ref" and s["rv"]["mut"] and is_buf_place(s["rv"]["place"]))
+                                           or (s["rv"]["k"] == "use" and "move" in s["rv"]["op"] and is_buf_place(s["rv"]["op"]["move"]))
+                                           or (s["place"]["p"] and is_buf_place(s["place"]))):
+                    touching.add(norm(prog.bodies.get(b.root, b).name))
+    # a private helper called only by the allowed writers is part of them (and is held to the same byte rules below)
+    owners = helper_owners(prog, touching, allowed)
     for b in prog.bodies.values():
         if b.crate != "mpd_protocol" or b.raw.get("derived"):
             continue
         root = norm(prog.bodies.get(b.root, b).name)
+        own = owners.get(root)
         touches = False
         for bb, i, s in b.stmts():
             if s["k"] != "assign":
@@ -349,10 +362,10 @@ def owners_rule(rep, prog, cfg):
                 touches = True
         if not touches:
             continue
-        seen.add(root)
-        rep.check(root in allowed, rule, "%s/writer %s" % (cfg, root), b.loc(b.span),
+        seen |= own or {root}
+        rep.check(own is not None, rule, "%s/writer %s" % (cfg, root), b.loc(b.span),
                   "%s obtains mutable access to a Command's byte buffer; only add_argument (validated), send and list rendering (one LF each) may" % root)
-        if root == M + "Command::add_argument":
+        if own == {M + "Command::add_argument"}:
             continue
         # every byte appended here is the constant LF; slices appended are whole commands or the framing constants
         for bb, t in b.calls():
@@ -362,7 +375,7 @@ def owners_rule(rep, prog, cfg):
                 rep.check(k == 10, rule, "%s/%s put_u8" % (cfg, root), b.loc(b.blocks[bb]["ts"]),
                           "%s appends a byte other than the constant LF (0x0A) to a command" % root)
             elif any(n.startswith("bytes::buf::buf_mut::BufMut::put_") or n in ("bytes::bytes_mut::BytesMut::extend_from_slice",) for n in ns):
-                if root != M + "CommandList::render":
+                if own != {M + "CommandList::render"}:
                     rep.fail(rule, "%s/%s %s" % (cfg, root, ns[0].rsplit("::", 1)[-1]), b.loc(b.blocks[bb]["ts"]),
                              "%s appends more than the line terminator to a command" % root)
     missing = allowed - seen
